@@ -16,7 +16,7 @@ func FeedBytes(f Feed) []byte {
 	for i, u := range f.Ups {
 		id := strconv.Itoa(i)
 		tripID := fmt.Sprintf("%06d", u.Pfx*100) + sfxName(u.Sfx)
-		route := "R" + strconv.Itoa(u.Route)
+		route := RoutePfx + strconv.Itoa(u.Route)
 		day := tm(u.Start - u.Start%86400)
 		secs := u.Start % 86400
 		startDate := day.Format("20060102")
@@ -31,11 +31,11 @@ func FeedBytes(f Feed) []byte {
 		}
 		tu := &gtfsrt.TripUpdate{Trip: td}
 		if u.Veh.IsSome() && u.Veh.Val() != 0 {
-			v := "V" + strconv.Itoa(u.Veh.Val())
+			v := VehPfx + strconv.Itoa(u.Veh.Val())
 			tu.Vehicle = &gtfsrt.VehicleDescriptor{Id: &v}
 		}
 		for _, s := range u.Stus {
-			stop := "S" + strconv.Itoa(s.Stop)
+			stop := StopPfx + strconv.Itoa(s.Stop)
 			stu := &gtfsrt.TripUpdate_StopTimeUpdate{StopId: &stop}
 			if s.Arr.IsSome() {
 				t := Base + int64(s.Arr.Val())
